@@ -259,3 +259,26 @@ def api_jobs(ctx, spec, cfg, lengths, alloc_fail=False, second_lex=False, checks
     ctx.functions.update(['yy_scan_buffer', 'yy_scan_bytes', 'yy_switch_to_buffer', 'yypush_buffer_state', 'yypop_buffer_state',
                           'yy_delete_buffer', 'yy_flush_buffer', 'yylex_destroy', 'yyensure_buffer_stack', 'yy_load_buffer_state'])
     return jobs, g
+
+
+def wrap_jobs(ctx, spec, cfg, lengths, timeout=400, mem_mb=10000, witness_len=None):
+    """yywrap() continuation jobs (scanner generated WITHOUT noyywrap)."""
+    wd, g = _prep(ctx, spec, cfg, 'wrap', extra_options=[o for o in ALLOC_OPTS if o != 'noyywrap'])
+    jobs = []
+    if not g.ok:
+        return jobs, g
+    for n in lengths:
+        for w in ([False, True] if witness_len == n else [False]):
+            src = os.path.join(wd, 'wrap_n%d%s.c' % (n, '_w' if w else ''))
+            with open(src, 'w') as fh:
+                fh.write(H.wrap_harness(g, cfg, spec, n, witness=w))
+            b = scanner_bounds(g, n, 1)
+            b['outer'] = 3
+            j = cbmc.Job('wrap_%s_%s_n%d%s' % (spec.name, cfg.name, n, '_w' if w else ''), wd, [src], b,
+                         includes=[wd, H.HDIR], harness_bound=None, timeout=timeout, mem_mb=mem_mb, gen_file=g.cpath,
+                         expect='witness' if w else 'proved',
+                         meta=dict(engine='E4', entry=spec.name, config=cfg.name,
+                                   bound='empty first source, yywrap stops or supplies a second source of %d bytes' % n,
+                                   flex_input=g.ltext, flex_args=g.args))
+            jobs.append(j)
+    return jobs, g
